@@ -59,3 +59,23 @@ pub fn run(sc: &Value) -> Value {
     let _ = std::fs::remove_dir_all(&root);
     out
 }
+
+/// C18: apply_left_strip through record_artifacts: one file named `path` (letters only) recorded with the given strip prefixes
+pub fn run_left_strip(sc: &Value) -> Value {
+    let to_s = |v: &Value| -> Option<String> { String::from_utf8(v.as_array()?.iter().map(|x| x.as_u64().unwrap() as u8).collect()).ok() };
+    let path = match to_s(&sc["path"]) { Some(p) if !p.is_empty() && p.bytes().all(|b| b.is_ascii_lowercase()) => p, _ => return json!({"outcome": "not-replayable-on-a-file-system"}) };
+    let root = std::env::temp_dir().join(format!("verif-strip-{}-{}", std::process::id(), chrono::Utc::now().timestamp_nanos_opt().unwrap_or(0)));
+    std::fs::create_dir_all(&root).unwrap();
+    std::fs::write(root.join(&path), b"x").unwrap();
+    let old = std::env::current_dir().ok();
+    std::env::set_current_dir(&root).unwrap();
+    let prefixes: Option<Vec<String>> = if sc["prefixes"].is_null() { None } else { Some(sc["prefixes"].as_array().unwrap().iter().map(|q| to_s(q).unwrap_or_default()).collect()) };
+    let pre_ref: Option<Vec<&str>> = prefixes.as_ref().map(|v| v.iter().map(|s| s.as_str()).collect());
+    let r = record_artifacts(&[path.as_str()], None, pre_ref.as_deref());
+    if let Some(o) = old { let _ = std::env::set_current_dir(o); }
+    let _ = std::fs::remove_dir_all(&root);
+    match r {
+        Err(_) => json!({"outcome": "err"}),
+        Ok(map) => { let v = serde_json::to_value(&map).unwrap(); let k: Vec<String> = v.as_object().unwrap().keys().cloned().collect(); json!({"outcome": format!("str:{}", k.join(","))}) }
+    }
+}
